@@ -39,6 +39,9 @@ StrSet == {<<65>>, <<72, 105>>, <<>>, <<97, 10, 9, 13>>, <<34, 92, 39>>, <<120, 
            \* strings whose text is also a token of the language: $  //x  /*  ;x  :  ,  #  .
            <<36>>, <<47, 47, 120>>, <<47, 42>>, <<59, 120>>, <<58>>, <<44>>, <<35>>, <<46>>, <<36, 36>>}
 
+Bin(b) == [k |-> "bin", b |-> b]
+BinSet == {<<>>, <<65>>, <<1, 2, 3>>, <<65, 66, 67, 68, 69, 70, 71, 72>>, <<0, 255, 0, 10, 13>>}
+
 Stmts ==
      {[k |-> "org", a |-> a] : a \in {0, 1, 2, 16, 255, 4096, 32768, 65520, 65534, 65535, 65536, 65537, 1048575}}
   \cup {Data(1, <<Num(v)>>) : v \in DbVals}
@@ -65,6 +68,16 @@ Stmts ==
   \cup {[k |-> "fill", v |-> P(7), n |-> c] : c \in {0, -1, 300}}
   \cup {[k |-> "endian", big |-> b] : b \in BOOLEAN}
   \cup {[k |-> "label", n |-> s] : s \in Names}
+  \cup {Bin(b) : b \in BinSet}
+
+\* the later of two statements that place bytes at one address wins: every ordered pair of writers, the second one
+\* placed over the first (same start, or one byte further on), with a word of the final location counter behind it
+Writers == {Data(1, <<Num(1), Num(2), Num(3)>>), Data(4, <<Num(-1)>>), DataZ(<<Str(<<72, 105>>)>>),
+            [k |-> "fill", v |-> P(255), n |-> 17], [k |-> "fill", v |-> P(0), n |-> 3],
+            Bin(<<65, 66, 67, 68, 69, 70, 71, 72>>), Bin(<<1, 2, 3>>)}
+OverlayProgs == {<<[k |-> "org", a |-> a], x, [k |-> "org", a |-> a + d], y, Data(2, <<Here>>)>> :
+                   a \in {0, 4096}, d \in {0, 1}, x \in Writers, y \in Writers}
+EmitOverlay == (prog = <<>>) => PrintT("OVER " \o ToJson(OverlayProgs))
 
 Init == prog = <<>> /\ n \in 1..MaxLen
 Next == Len(prog) < n /\ \E s \in Stmts : prog' = Append(prog, s) /\ UNCHANGED n
